@@ -65,6 +65,7 @@ type ReplayFile struct {
 	Observed  []string          `json:"observed,omitempty"`
 	Meta      map[string]string `json:"meta,omitempty"`
 	SyncFiles []string          `json:"sync_files,omitempty"`
+	KnownOpen []string          `json:"known_open,omitempty"`
 }
 
 func loadJSON(path string, v interface{}) error {
@@ -288,7 +289,7 @@ func CmdCheck(args []string) int {
 			for _, i := range cands {
 				v := rep.Violations[i]
 				rf := ReplayFile{Property: id, Pkg: e.Pkg, Func: e.Func, Label: v.Label, Nondet: v.Nondet, Bounds: bounds,
-					Decisions: v.Decisions, Observed: v.Observed, SyncFiles: e.SyncFiles}
+					Decisions: v.Decisions, Observed: v.Observed, SyncFiles: e.SyncFiles, KnownOpen: sortedKeys(knownOpen)}
 				dir := filepath.Join(VerifDir, "replays", id)
 				os.MkdirAll(dir, 0o755)
 				path := filepath.Join(dir, fmt.Sprintf("%s-%s-%d.json", e.Func, sanitize(v.Label), i))
@@ -663,7 +664,7 @@ func SelfTest(id string, e EntrySpec, bounds map[string]int, cases []interp.Self
 	agree := 0
 	var problems []string
 	for i, c := range cases {
-		rf := ReplayFile{Property: id, Pkg: e.Pkg, Func: e.Func, Label: "selftest", Nondet: c.Nondet, Bounds: bounds}
+		rf := ReplayFile{Property: id, Pkg: e.Pkg, Func: e.Func, Label: "selftest", Nondet: c.Nondet, Bounds: bounds, KnownOpen: knownOpenIDs(id)}
 		path := filepath.Join(tmp, fmt.Sprintf("case%d.json", i))
 		data, _ := json.Marshal(rf)
 		os.WriteFile(path, data, 0o644)
@@ -737,4 +738,29 @@ func CmdReplay(args []string) int {
 		return 1
 	}
 	return 0
+}
+
+func sortedKeys(m map[string]bool) []string {
+	var r []string
+	for k, v := range m {
+		if v {
+			r = append(r, k)
+		}
+	}
+	sort.Strings(r)
+	return r
+}
+
+// knownOpenIDs reads the ids of the open findings of a property from the committed file.
+func knownOpenIDs(id string) []string {
+	var known []KnownFinding
+	loadJSON(filepath.Join(VerifDir, "known_findings.json"), &known)
+	var r []string
+	for _, k := range known {
+		if k.Status == "open" && k.Property == id {
+			r = append(r, k.ID)
+		}
+	}
+	sort.Strings(r)
+	return r
 }
